@@ -366,7 +366,7 @@ def conv_gd(x):
             ref = ('ok', deliver + [0], None) if not (m['op'] in ('wcstombs', 'wcsrtombs') and len(deliver) == 0) else None    # the empty result of wcstombs_s is a known C15 finding
         else: ref = ('fail',)
     g = gd(1, 0, m['dmax'], w, producer=not single, slack=True, fail='ret', writable=wr, copylike=True, ref=ref,
-           readonly=([] if single else [(2, 0, len(x.blocks[2][1]))]))
+           readonly=([] if single or len(x.blocks) < 3 else [(2, 0, len(x.blocks[2][1]))]))
     return g
 
 def fmt_cases(seed, tier, consts):
